@@ -404,8 +404,13 @@ func (e *env) keygenFile(name string) {
 		var pk ssh.PublicKey
 		var comment string
 		var options []string
-		if pan, pv, _ := vf.Protect(func() { pk, comment, options, _, err = ssh.ParseAuthorizedKey(raw) }); pan {
+		rawIn := append([]byte(nil), raw...) // the parser gets a private copy; it must leave it untouched
+		if pan, pv, _ := vf.Protect(func() { pk, comment, options, _, err = ssh.ParseAuthorizedKey(rawIn) }); pan {
 			c.Violation("ParseAuthorizedKey panics on a file written by ssh-keygen", det(fmt.Sprint(pv)))
+			continue
+		}
+		if !bytes.Equal(rawIn, raw) {
+			c.Violation("ParseAuthorizedKey modifies the bytes it was given ("+ref.Type+")", det("file written by ssh-keygen"))
 			continue
 		}
 		c.Eval(1)
